@@ -3,7 +3,8 @@
 Oracle on the REAL engines (independent of the Lean model), for every round of every case: exactly one sample is emitted,
 it carries the round's timestamp, and its value is None exactly when some input of the expression is missing
 (None / NaN / +inf / -inf) on a stream without `nones_are_zeros`, or the expression (missing inputs of zeroing streams
-counted as 0) has a zero divisor; otherwise it is the exact rational value.  Expressions: formula strings (independent
+counted as 0) has a zero divisor; otherwise it is the exact rational value (a clip step clips a present value and
+passes a missing one on; a tiny non-zero divisor is not a zero divisor).  Expressions: formula strings (independent
 parser) and composition-API trees; every operator x operand position x encoding x flag is enumerated on every run.
 A result that is not finite although all inputs are (IEEE overflow, division by a subnormal) must be emitted as None.
 Correspondence with the model: as in C05 (tokens, postfix steps, emitted samples — exact).
@@ -19,7 +20,10 @@ RULE = ("as C05 (strings of the grammar, composition trees, push_* sequences) wi
         "operator x {first, second, both, no} operand missing x encoding x flag x zero divisor for every binary and "
         "unary operator, nested once on either side; plus a stream of FINITE inputs (1e200, 1e308, 5e-324, ...) whose IEEE "
         "result is not finite (overflowing products/sums, division by subnormals, inf-inf, inside larger expressions): "
-        "None must be emitted — oracle only, the model has no overflow.  non-trivial = >=2 operators of >=2 kinds (or a grid case)")
+        "None must be emitted — oracle only, the model has no overflow; plus clip steps (push_clipper; fully parenthesised "
+        "token streams rendered from a tree that is the oracle's reference): every bound configuration x clip of an input / "
+        "of a sum / as left or right operand / of a clip x missing encoding x flag, and random trees with clips; plus tiny "
+        "non-zero denominators (2^-40, differences of nearly equal operands): a value must be emitted.  non-trivial = >=2 operators of >=2 kinds (or a grid case)")
 
 ENC = [None, "nan", "inf", "-inf"]
 
@@ -76,7 +80,10 @@ def run(ctx: Ctx) -> None:
     ctx.rule = RULE
     cases = corpus("C13")
     cases += grid()
+    cases += g.clip_grid()
+    cases += g.tiny_cases()
     n = ctx.budget(quick=4000, thorough=50000)
+    cases += g.gen_clip_cases(ctx, max(150, n // 12), p_missing=0.3)
     cases += gen_cases(ctx, n, p_missing=0.25, per_id_flags=0.4)
     # results that are not finite although every input is: judged by the oracle only (no exact-rational counterpart)
     g.check_nonfinite(ctx, g.gen_nonfinite_cases(ctx, max(200, n // 10)))
